@@ -140,8 +140,10 @@ def generate_gt(predicate: GtPredicate) -> Iterator:
     match predicate.v:
         case datetime() as dt:
             yield from (dt + timedelta(days=days) for days in range(1, 6))
-        case float():
-            yield from random_floats(lower=math.nextafter(predicate.v, math.inf))
+        case float() as v:
+            # only a float that has a successor has values above it (nothing is greater than inf)
+            if (lower := math.nextafter(v, math.inf)) > v:
+                yield from random_floats(lower=lower)
         case int():
             yield from random_ints(lower=predicate.v + 1)
         case str():
@@ -197,8 +199,10 @@ def generate_lt(predicate: LtPredicate) -> Iterator:
     match predicate.v:
         case datetime() as dt:
             yield from (dt - timedelta(days=days) for days in range(1, 6))
-        case float():
-            yield from random_floats(upper=math.nextafter(predicate.v, -math.inf))
+        case float() as v:
+            # only a float that has a predecessor has values below it (nothing is less than -inf)
+            if (upper := math.nextafter(v, -math.inf)) < v:
+                yield from random_floats(upper=upper)
         case int():
             yield from random_ints(upper=predicate.v - 1)
         case str():
